@@ -1664,7 +1664,7 @@ func constTable(p *pkgInfo, vs *ast.ValueSpec, i int) (string, bool) {
 // ---------------------------------------------------------------- driver
 
 // the functions translated into Pure_gen.v ("Recv.Method" for methods)
-var pureFuncs = []string{"cast", "escapeChars", "parsePath", "getSubKeyMap", "hasSubKeys", "Map.PathForKeyShortest", "valuesForKeyPath", "hasKey", "getLeafNodes"}
+var pureFuncs = []string{"cast", "escapeChars", "parsePath", "getSubKeyMap", "hasSubKeys", "Map.PathForKeyShortest", "valuesForKeyPath", "hasKey", "hasKeyPath", "getLeafNodes"}
 
 func genPure(p *pkgInfo) string {
 	vars, _ := pkgVars(p)
